@@ -9,6 +9,18 @@ def moves(tier):
     return rules_c02.moves(True, sqs)
 
 
+def controls(cprog, cfacts):
+    """H1: a hash term combined with `|` must be reported"""
+    from . import core
+    from .values import BV, HF, TRUE
+    from .bits import C1
+    c = core.Ctx('C08', 'control', 'other')
+    I = inputs.make_interp(cprog)
+    fn = cprog.one('hash_with_or')
+    I.call_fn(fn, [HF([(('OPAQUE', 'h'), C1)]), TRUE])
+    rules_hash.check_h1(c, I, 'control')
+    return [] if any(f['key'].startswith('C08.1/') for f in c.findings) else ['C08.1 (hash combined with |)']
+
 def run(ctx, prog, facts, tier):
     I = inputs.make_interp(prog, fuel=20000000)
     rules_hash.check_from_piece_board(ctx, prog, I)
